@@ -44,10 +44,11 @@ class Case:
 class Ctx:
     """what a judge function sees"""
 
-    def __init__(self, index, failures, x86=None):
+    def __init__(self, index, failures, x86=None, mem=None):
         self.index = index
         self.failures = failures
         self.x86 = x86
+        self.mem = mem or {}
         self._cache = {}
 
     def compile_error(self, k):
@@ -101,7 +102,7 @@ _G = {}
 
 def _run_case(i):
     case = _G['cases'][i]
-    ctx = Ctx(_G['index'], _G['failures'], _G.get('x86'))
+    ctx = Ctx(_G['index'], _G['failures'], _G.get('x86'), _G.get('mem'))
     t0 = time.time()
     try:
         res = case.judge(ctx)
@@ -149,6 +150,7 @@ def run_check(prop, mod, tier, level, explanation, assumptions, trusted_base, x8
     index, failures, broken, stats = B.build(kernels, work, jobs=jobs)
     t_build = time.time() - t0
     _G['cases'], _G['index'], _G['failures'], _G['x86'] = cases, index, failures, x86
+    _G['mem'] = stats.get('mem', {})
     results = []
     nproc = jobs or os.cpu_count() or 4
     if len(cases) > 1 and nproc > 1:
